@@ -1,1 +1,193 @@
-fn main() { qv::hello(); }
+use qv::props;
+use qv::run::*;
+use std::path::{Path, PathBuf};
+use std::time::Instant;
+
+fn usage() -> ! {
+    eprintln!("usage: qv check <ID> | qv replay <file> [--strict]");
+    std::process::exit(2)
+}
+
+fn run_replay_file(path: &Path) -> Result<(ReplayFile, Vec<Fail>), String> {
+    let rf = read_replay(path)?;
+    let (_, replay) = props::lookup(&rf.property).ok_or(format!("unknown property {}", rf.property))?;
+    let mut st = Stats::new();
+    let fails = replay(&rf.leg, &rf.spec, &mut st)?;
+    Ok((rf, fails))
+}
+
+fn main() {
+    qv::safe::install_hook();
+    let args: Vec<String> = std::env::args().collect();
+    if args.len() < 3 {
+        usage();
+    }
+    match args[1].as_str() {
+        "check" => std::process::exit(check(&args[2])),
+        "replay" => {
+            let findings = Findings::load();
+            match run_replay_file(Path::new(&args[2])) {
+                Ok((rf, fails)) => {
+                    if fails.is_empty() {
+                        println!("replay {}: property {} holds on this input", args[2], rf.property);
+                        std::process::exit(0);
+                    }
+                    let mut code = 0;
+                    for f in &fails {
+                        match findings.open_match(&rf.property, &f.key) {
+                            Some(k) => println!("KNOWN-FINDING: property={} {} [{}] {}", rf.property, k.id, f.key, f.detail),
+                            None => {
+                                println!("VIOLATION property={} replay={}", rf.property, args[2]);
+                                println!("  key: {}\n  detail: {}", f.key, f.detail);
+                                code = 1;
+                            }
+                        }
+                    }
+                    std::process::exit(code);
+                }
+                Err(e) => {
+                    eprintln!("replay error: {e}");
+                    std::process::exit(2);
+                }
+            }
+        }
+        _ => usage(),
+    }
+}
+
+fn check(id: &str) -> i32 {
+    let t0 = Instant::now();
+    let ctx = Ctx::from_env();
+    let findings = Findings::load();
+    let Some((run, _)) = props::lookup(id) else {
+        eprintln!("unknown property {id}");
+        return 2;
+    };
+    let mut violations: Vec<String> = vec![];
+    let mut known_lines: Vec<String> = vec![];
+    let mut harness_errors: Vec<String> = vec![];
+
+    // ---- replay tier
+    let mut referenced: Vec<PathBuf> = vec![];
+    for f in findings.for_property(id) {
+        let Some(repro) = &f.repro else { continue };
+        let path = Path::new(VERIF_ROOT).join(repro);
+        referenced.push(path.clone());
+        match run_replay_file(&path) {
+            Ok((_, fails)) => {
+                if f.status == "open" {
+                    let hit = fails.iter().find(|x| f.signatures.iter().any(|s| sig_matches(s, &x.key)));
+                    match hit {
+                        Some(_) => {
+                            let line = format!("KNOWN-FINDING: property={} {} {}", id, f.id, f.what);
+                            println!("{line}");
+                            known_lines.push(line);
+                        }
+                        None => println!("STALE-FINDING: property={} {} no longer reproduces from {}", id, f.id, repro),
+                    }
+                    for x in fails {
+                        if findings.open_match(id, &x.key).is_none() {
+                            println!("VIOLATION property={} replay={}", id, path.display());
+                            println!("  key: {}\n  detail: {}", x.key, x.detail);
+                            violations.push(x.key);
+                        }
+                    }
+                } else {
+                    for x in fails {
+                        if findings.open_match(id, &x.key).is_none() {
+                            println!("VIOLATION property={} replay={}", id, path.display());
+                            println!("  (regression of fixed finding {}) key: {}\n  detail: {}", f.id, x.key, x.detail);
+                            violations.push(x.key);
+                        }
+                    }
+                }
+            }
+            Err(e) => harness_errors.push(format!("replay of {repro}: {e}")),
+        }
+    }
+    let dir = Path::new(VERIF_ROOT).join("replays").join(id);
+    if let Ok(rd) = std::fs::read_dir(&dir) {
+        let mut files: Vec<PathBuf> = rd.filter_map(|e| e.ok()).map(|e| e.path()).filter(|p| p.extension().map_or(false, |x| x == "json")).collect();
+        files.sort();
+        for path in files {
+            if referenced.contains(&path) {
+                continue;
+            }
+            match run_replay_file(&path) {
+                Ok((_, fails)) => {
+                    for x in fails {
+                        if findings.open_match(id, &x.key).is_none() {
+                            println!("VIOLATION property={} replay={}", id, path.display());
+                            println!("  key: {}\n  detail: {}", x.key, x.detail);
+                            violations.push(x.key);
+                        }
+                    }
+                }
+                Err(e) => harness_errors.push(format!("replay of {}: {e}", path.display())),
+            }
+        }
+    }
+
+    // ---- search tier
+    let rep = run(&ctx, &findings);
+    for leg in &rep.legs {
+        if let Some(found) = &leg.found {
+            if found.fail.key == "HARNESS-ABORT" {
+                harness_errors.push(format!("leg {}: {}", leg.leg, found.fail.detail));
+                continue;
+            }
+            let path = write_violation(id, found);
+            println!("VIOLATION property={} replay={}", id, path.display());
+            println!("  leg: {}\n  key: {}\n  detail: {}", found.leg, found.fail.key, found.fail.detail);
+            violations.push(found.fail.key.clone());
+        }
+    }
+    let tot = rep.total();
+    if ctx.survey {
+        for (k, (n, ex)) in &tot.survey {
+            let ex: String = ex.chars().take(600).collect();
+            println!("SURVEY {n:>8}  {k}\n          e.g. {ex}");
+        }
+        return 2;
+    }
+    for (k, n) in &tot.known {
+        println!("note: {n} generated cases hit known finding {k} (suppressed by signature)");
+    }
+    let wall = t0.elapsed().as_secs_f64();
+    write_evidence(&ctx, &rep, wall, violations.len(), &known_lines);
+    println!(
+        "{id}: tier={} seed={} evaluations={} distinct_nontrivial={} violations={} wall={:.1}s",
+        ctx.tier_name(),
+        ctx.seed,
+        tot.evaluations,
+        tot.nontrivial.len(),
+        violations.len(),
+        wall
+    );
+    if !violations.is_empty() {
+        return 1;
+    }
+    if !harness_errors.is_empty() || !rep.inconclusive.is_empty() {
+        for e in harness_errors.iter().chain(rep.inconclusive.iter()) {
+            println!("INCONCLUSIVE: {e}");
+        }
+        return 2;
+    }
+    0
+}
+
+fn write_violation(prop: &str, found: &Found) -> PathBuf {
+    let dir = Path::new(VERIF_ROOT).join("violations").join(prop);
+    let _ = std::fs::create_dir_all(&dir);
+    let rf = ReplayFile {
+        property: prop.to_string(),
+        leg: found.leg.clone(),
+        key: found.fail.key.clone(),
+        detail: found.fail.detail.clone(),
+        spec: found.spec.clone(),
+    };
+    let h = hash_json(&rf) % 0xffff_ffff;
+    let path = dir.join(format!("{}_{:08x}.json", found.leg, h));
+    let _ = std::fs::write(&path, serde_json::to_string_pretty(&rf).unwrap());
+    path
+}
